@@ -655,6 +655,9 @@ pub fn cldb(args: &[String]) {
         }
     };
 
+    #[cfg(chialisp_verif)]
+    crate::util::verif_event("cldb:program", &program.to_string());
+
     let env_loc = Srcloc::start("*args*");
     let env = match parsed_args.get("hex") {
         Some(ArgumentValue::ArgBool(true)) => {
